@@ -479,9 +479,9 @@ func (ex *Exec) zeroOfType(st *State, t types.Type) SV {
 		case SAII:
 			return SV{K: KArray, T: T(SAII, "((as const (Array Int Int)) 0)")}
 		case SAIS:
-			return SV{K: KArray, T: T(SAIS, "((as const (Array Int Str)) lit_empty)")}
+			return SV{K: KArray, T: T(SAIS, "zeroStrArr")}
 		case SAIA:
-			return SV{K: KArray, T: T(SAIA, "((as const (Array Int Any)) nilAny)")}
+			return SV{K: KArray, T: T(SAIA, "zeroAnyArr")}
 		}
 	case KStruct:
 		stt := t.Underlying().(*types.Struct)
